@@ -7,6 +7,7 @@ import (
 	"encoding/json"
 	"encoding/xml"
 	"fmt"
+	"reflect"
 	"strings"
 	"time"
 
@@ -78,11 +79,45 @@ func c19SP(c c19Case) (*saml2.SAMLServiceProvider, c13Keys, []string) {
 	return sp, k, vals
 }
 
+// c19Exec judges the metadata of a fresh instance, and then once more the metadata produced
+// after a caller has written all over an earlier result (every field, slice element and map
+// entry, in place): what is published must come from the configuration, not from anything an
+// earlier result shares with a later one.
 func c19Exec(c c19Case) (keys []string, detail, class string) {
+	keys, detail, class = c19ExecPass(c, false)
+	if len(keys) == 0 {
+		k2, d2, _ := c19ExecPass(c, true)
+		for _, k := range k2 {
+			keys = append(keys, strings.Replace(k, "C19/", "C19/after-an-earlier-result-was-modified/", 1))
+		}
+		if len(k2) > 0 {
+			detail += " | after writing over an earlier result: " + d2
+			class = "DIFFERS"
+		}
+	}
+	return keys, detail, class
+}
+
+func c19ExecPass(c c19Case, afterScribble bool) (keys []string, detail, class string) {
 	sp, k, vals := c19SP(c)
 	var md *types.EntityDescriptor
 	var err error
 	h := c19Hours[c.Hours]
+	if afterScribble {
+		guard(func() {
+			for _, slo := range []bool{false, true} {
+				var m *types.EntityDescriptor
+				if slo {
+					m, _ = sp.MetadataWithSLO(h)
+				} else {
+					m, _ = sp.Metadata()
+				}
+				if m != nil {
+					scribbleDeep(reflect.ValueOf(m), 0, map[uintptr]bool{})
+				}
+			}
+		})
+	}
 	p := guard(func() {
 		if c.SLO {
 			md, err = sp.MetadataWithSLO(h)
@@ -331,7 +366,7 @@ func c19Replay(raw json.RawMessage) ([]string, string) {
 }
 
 func c19Run(r *mc.Run) {
-	r.Rule = "full product key configuration(12 with an encryption key) x SignAuthnRequests x SkipSignatureValidation x {Metadata, MetadataWithSLO(h) for h in -5,0,1,24,168,8760,10^6} x clock(5), with signing/decryption cross-checks (a signed AuthnRequest of the same SP verifies with the published signing certificate; an assertion encrypted to the published encryption certificate under each listed method is decrypted by the same SP) on the key-configuration dimension (field key stores as dsig.TLSCertKeyStore and as a key store of a custom type), plus <=1 (quick) / <=2 (thorough) special strings among issuer / ACS URL / SLO URL; XML marshal is parsed by encoding/xml and must unmarshal back to equal values. non-trivial = metadata was produced and compared; distinct = distinct case"
+	r.Rule = "full product key configuration(12 with an encryption key) x SignAuthnRequests x SkipSignatureValidation x {Metadata, MetadataWithSLO(h) for h in -5,0,1,24,168,8760,10^6} x clock(5), with signing/decryption cross-checks (a signed AuthnRequest of the same SP verifies with the published signing certificate; an assertion encrypted to the published encryption certificate under each listed method is decrypted by the same SP) on the key-configuration dimension (field key stores as dsig.TLSCertKeyStore and as a key store of a custom type), plus <=1 (quick) / <=2 (thorough) special strings among issuer / ACS URL / SLO URL; each case judged on a fresh instance and again after a caller wrote over every field, slice element and map entry of earlier results; XML marshal is parsed by encoding/xml and must unmarshal back to equal values. non-trivial = metadata was produced and compared; distinct = distinct case"
 	var cases []c19Case
 	nk := len(c19Keys())
 	mc.Enumerate(-1, r.Expired, func(ch *mc.Chooser) {
